@@ -45,6 +45,10 @@ loadstate_t iobuffer::load_buffer(FILE *fin, bool ispadding)
   }
   if ((!ispadding) && readover)
   {
+    // fewer than 16 bytes left (a body that is empty or not a whole number of blocks): there is no block to hand
+    // to a worker, and a READY buffer without blocks is never handed back
+    if (total == 0)
+      return NODATA;
     isfinal = true;
     return FINAL;
   }
